@@ -191,13 +191,14 @@ fn check_small_on(case: &Case, hays: &[String], l: &mut Local) -> Verdict {
 }
 
 pub static V_SMALL: Variant = Variant { name: "exhaustive_small_patterns", choice_len: 1, gen: gen_small, check: check_small };
+pub static V_THEMED: Variant = Variant { name: "themed", choice_len: 400, gen: super::c01::gen_themed, check };
 pub static V_FLAG: Variant = Variant { name: "exhaustive_flag_slice", choice_len: 1, gen: gen_flag, check: check_flag };
 pub static V_GENERAL: Variant = Variant { name: "general", choice_len: 400, gen, check };
 pub static V_ASCII: Variant = Variant { name: "ascii_hay", choice_len: 400, gen: gen_ascii, check };
 pub static V_SCM: Variant = Variant { name: "single_char_loops", choice_len: 300, gen: gen_scm, check };
 
 pub fn variants() -> Vec<&'static Variant> {
-    vec![&V_GENERAL, &V_ASCII, &V_SCM, &V_SMALL, &V_FLAG]
+    vec![&V_GENERAL, &V_ASCII, &V_SCM, &V_SMALL, &V_FLAG, &V_THEMED]
 }
 
 pub fn run(ctx: &Ctx) -> i32 {
@@ -206,9 +207,10 @@ pub fn run(ctx: &Ctx) -> i32 {
     ctx.run_variant(&V_GENERAL, ctx.scale(600_000, 10_000_000));
     ctx.run_variant(&V_ASCII, ctx.scale(300_000, 4_000_000));
     ctx.run_variant(&V_SCM, ctx.scale(300_000, 4_000_000));
+    ctx.run_variant(&V_THEMED, ctx.scale(300_000, 4_000_000));
     ctx.finish(
         "exploration",
-        "(bounded-exhaustive) the 141k patterns of the small grammar of C01 x all haystacks in {a,b}^<=4 x both pipelines x UTF-8/ASCII, full match sequences; the flag slice of C01 (200k pattern/flag combinations, all 16 i,m,s x legacy/u sets) x all haystacks over {a, A, LF} up to length 3; plus random ES patterns (valid by construction, all 24 flag sets, themed alphabets) x haystacks x start offsets; both pipelines (opt/no_opt), UTF-8 and (on ASCII haystacks) ASCII entry points; oracle = differential between the two executors on the same compiled program. Non-trivial = at least one match found and the pattern contains a split (alternation or quantifier); distinct by hash of (pattern, flags, haystack, start).",
+        "(bounded-exhaustive) the 141k patterns of the small grammar of C01 x all haystacks in {a,b}^<=4 x both pipelines x UTF-8/ASCII, full match sequences; the flag slice of C01 (200k pattern/flag combinations, all 16 i,m,s x legacy/u sets) x all haystacks over {a, A, LF} up to length 3; plus the 18 themed shapes of C01's generator (nested empty-matchable quantifiers, self-referencing groups in lookbehind, lookaround towers, counted alternation loops in lookbehind, scoped-m anchored alternations, string sets under iv, ...) and random ES patterns (valid by construction, all 24 flag sets, themed alphabets) x haystacks x start offsets; both pipelines (opt/no_opt), UTF-8 and (on ASCII haystacks) ASCII entry points; oracle = differential between the two executors on the same compiled program. Non-trivial = at least one match found and the pattern contains a split (alternation or quantifier); distinct by hash of (pattern, flags, haystack, start).",
         &["fuel hook cuts runaway searches (counted, never judged)", "both executors share parser/optimizer/emitter: this check says nothing about agreement with ECMAScript (C01)"],
     )
 }
